@@ -75,8 +75,9 @@ pub struct Scenario {
 }
 
 pub fn generate(_cfg: &RunCfg, _out: &mut Outcome) -> Scenario {
-    let keepalive_s = if t::chance(1, 5) { Some(t::pick(&[120u64, 300])) } else { None };
-    let long = keepalive_s.is_some();
+    // (wave 17) ... or set to 0: every session is over at once, served or not — and `howl` returns all the same
+    let keepalive_s = if t::chance(1, 5) { Some(t::pick(&[120u64, 300])) } else if t::chance(1, 12) { Some(0) } else { None };
+    let long = keepalive_s.is_some_and(|k| k > 0);
     let n = t::weighted(&[2, 3, 3, 2, 1, 1, 1]);
     let sigint_ms = t::pick(&[0u64, 0, 1, 2, 5, 30, 400, 3000]);
     let clients = (0..n)
@@ -96,7 +97,8 @@ pub fn generate(_cfg: &RunCfg, _out: &mut Outcome) -> Scenario {
                 0 if long => ClientKind::Slow { delay_ms: t::pick(&[2000u64, 20_000, 44_000, 46_000, 60_000, 100_000]) },
                 0 => ClientKind::Slow { delay_ms: t::pick(&[0u64, 1, 50, 2000, 20_000]) },
                 1 => ClientKind::Fast,
-                2 => ClientKind::Idle { close_after_ms: t::pick(&[1u64, 100, 5000, 60_000]) },
+                // (u64::MAX: connects, says nothing and stays for ever)
+                2 => ClientKind::Idle { close_after_ms: t::pick(&[1u64, 100, 5000, 60_000, u64::MAX]) },
                 3 => ClientKind::Half { rest_after_ms: t::pick(&[1u64, 100, 3000]) },
                 _ => ClientKind::Two { gap_ms: t::pick(&[0u64, 1, 300, 5000]), delay_ms: t::pick(&[0u64, 10, 1000]) },
             };
@@ -369,7 +371,9 @@ fn execute(sc: &Scenario, out: &mut Outcome) {
                     return;
                 }
             };
-            o.borrow_mut().connected_at_step = Some(simcore::with(|w| w.steps));
+            // the step at which the server's `accept` took the connection — not the one at which this task noticed: with the
+            // keep-alive time-out at 0 a whole session, and `howl`'s return, fit in between
+            o.borrow_mut().connected_at_step = Some(simcore::with(|w| w.conn_accepted_step(c.ep.conn).unwrap_or(w.steps)));
             let slow_req = |d: u64| format!("GET /slow HTTP/1.1\r\nHost: s\r\nx-delay-ms: {d}\r\n\r\n");
             match plan.kind {
                 ClientKind::Slow { delay_ms } => {
@@ -416,6 +420,10 @@ fn execute(sc: &Scenario, out: &mut Outcome) {
                     o.borrow_mut().results.push(r);
                 }
                 ClientKind::Idle { close_after_ms } => {
+                    if close_after_ms == u64::MAX {
+                        simcore::with(|w| w.count("fault.client_silent_for_ever"));
+                        std::future::pending::<()>().await;
+                    }
                     sleep(close_after_ms * MS).await;
                 }
                 ClientKind::NeverReads { hold_ms } => {
@@ -618,7 +626,8 @@ fn execute(sc: &Scenario, out: &mut Outcome) {
         }
         if ob.sent_complete_request {
             let ok = ob.results.iter().filter(|r| r.is_ok()).count();
-            if ok < ob.expected_responses {
+            // (with the keep-alive time-out set to 0 a session is over before it serves anything: configured, not a defect)
+            if ok < ob.expected_responses && sc.keepalive_s != Some(0) {
                 let accepted = simcore::with(|w| (0..w.n_conns()).any(|c| w.conn_accepted(c)));
                 let _ = accepted;
                 out.violate(
